@@ -98,6 +98,19 @@ C16_TrainIsVehicle(e, e2) ==
         /\ IsSome(e2.veh)
         /\ VehId(Val(e2.veh)) = (IF OrElse(Val(Val(e.trip).nyct).train, 0) = 0 THEN None
                                  ELSE Some([id |-> Val(Val(Val(e.trip).nyct).train), label |-> 0, plate |-> 0]))
+(* whatever else the message holds: an assigned trip with a train id that has one trip update of its own is  *)
+(* linked to the vehicle whose id is the train id (several trips may name one train)                          *)
+C16_AssignedTripsHaveTheirTrain(msg, opts, r) ==
+    LET ents2 == Pre(msg, opts).ents IN
+    \A i \in DOMAIN msg.ents :
+        LET e == msg.ents[i] IN
+        (e.k = "tu" /\ IsSome(e.trip) /\ Assigned(Val(e.trip)) /\ OrElse(Val(Val(e.trip).nyct).train, 0) # 0) =>
+            LET k == TripKey(Val(Rewrite(e).trip)) IN
+            Cardinality(OwnTU(ents2, k)) = 1 =>
+                \E n \in DOMAIN r.trips :
+                    /\ r.trips[n].key = k
+                    /\ IsSome(r.trips[n].veh)
+                    /\ Val(r.trips[n].veh).vid = Some([id |-> Val(Val(Val(e.trip).nyct).train), label |-> 0, plate |-> 0])
 C16_Tracks(e, e2) ==
     e.k = "tu" => \A i \in DOMAIN e.stus :
         ConvStu(e2.stus[i]).track =
